@@ -42,6 +42,7 @@ class G:
         self.snips = []             # verbatim texts that must survive (or vanish as a whole)
         self.frozen = []            # texts of containers holding star-expressions
         self.n = 0
+        self.shape_changed = False  # an element was inserted / deleted (alignment may then pair an unmanaged part with another position)
 
     def var(self, valsrc):
         name = f"V{len(self.vars)}"
@@ -97,10 +98,10 @@ class G:
                 ev = r.random()
                 if ev < 0.12:
                     obs.append(o)            # observed has an element the source lacks (insert)
+                    self.shape_changed = True
                 elif ev < 0.24:
                     parts.append(s)          # source has an element the observation lacks (delete)
-                    if s in self.snips:
-                        pass
+                    self.shape_changed = True
                 else:
                     parts.append(s)
                     obs.append(o)
@@ -123,8 +124,10 @@ class G:
                 ev = r.random()
                 if ev < 0.12:
                     obs.append((("str", key), o))
+                    self.shape_changed = True
                 elif ev < 0.24:
                     parts.append(f"{key!r}: {s}")
+                    self.shape_changed = True
                 else:
                     parts.append(f"{key!r}: {s}")
                     obs.append((("str", key), o))
@@ -149,7 +152,7 @@ def gen_case(rng, i):
     flags = tuple(rng.choice(proggen.flag_subsets())) if i % 3 else ("create", "fix")
     varlines = "".join(f"{n} = {v}\n" for n, v in g.vars)
     src = HEADER + varlines + f"\n\ndef test_a():\n    assert {valgen.render(obs)} == snapshot({old})\n"
-    return {"source": src, "old": old, "snips": g.snips, "frozen": g.frozen, "agree": g.agree, "flags": flags}
+    return {"source": src, "old": old, "snips": g.snips, "frozen": g.frozen, "agree": g.agree, "flags": flags, "shape_changed": g.shape_changed}
 
 
 def arg_text(src):
@@ -171,7 +174,7 @@ def run_case(case):
     except Exception as e:  # noqa
         out["error"] = f"{type(e).__name__}: {e}"
         return out
-    if case["agree"] and {"create", "fix"} <= set(case["flags"]):
+    if case["agree"] and not case.get("shape_changed") and {"create", "fix"} <= set(case["flags"]):
         r2 = driver.run_inproc({"test_a.py": r["files"]["test_a.py"]}, (), active=False)
         out["second"] = [(t[1], t[2][:300]) for t in r2["tests"]]
     return out
@@ -202,19 +205,43 @@ def judge(case, o):
                 # its value agrees with the observation: it may only vanish together with an element that holds it
                 # (an element of the source that the observation lacks)
                 pass
+    marg = mask_inner(arg)
     for fz in case["frozen"]:
-        if fz not in arg and not any(fz in other and fz != other for other in case["frozen"]):
-            # a frozen container may vanish only as part of a removed / replaced holder: check it is not partially rewritten
-            inner = fz[1:-1]
-            if inner and any(part.strip() and part.strip() in arg for part in [inner]) is False:
-                pass
-            if star_marker(fz) in arg:
-                return f"a container holding a star-expression was rewritten: {fz} -> {arg}"
+        if mask_inner(fz) not in marg and star_marker(fz) in arg:
+            return f"a container holding a star-expression was rewritten: {fz} -> {arg}"
     if "second" in o:
         bad = [t for t in o["second"] if t[1] != "ok"]
         if bad and not case["frozen"]:
             return f"managed siblings were not repaired: after create,fix the test fails with inline-snapshot disabled: {bad[0][1]}"
     return None
+
+
+def mask_inner(text):
+    """replace the argument of every inner snapshot(...) call by a placeholder (balanced parentheses)"""
+    out, i = [], 0
+    while True:
+        j = text.find("snapshot(", i)
+        if j < 0:
+            out.append(text[i:])
+            return "".join(out)
+        out.append(text[i:j] + "snapshot(#)")
+        k, depth = j + len("snapshot("), 1
+        quote = None
+        while k < len(text) and depth:
+            ch = text[k]
+            if quote:
+                if ch == "\\":
+                    k += 1
+                elif ch == quote:
+                    quote = None
+            elif ch in "'\"":
+                quote = ch
+            elif ch in "([{":
+                depth += 1
+            elif ch in ")]}":
+                depth -= 1
+            k += 1
+        i = k
 
 
 def star_marker(fz):
@@ -223,10 +250,11 @@ def star_marker(fz):
 
 
 def classify(case, o):
-    if "**V" in case["old"]:
-        return "F-12"
-    if "f'" in case["old"]:
-        return "F-13"
+    exc = o.get("session_exc") or ""
+    if "Replacement(" in exc and "snapshot(" in case["old"].split("snapshot(", 1)[-1] + " ":
+        pass
+    if "Replacement(" in exc and case["old"].count("snapshot(") >= 1 and ("(" in case["old"]):
+        return "F-29"       # inner snapshot inside a tuple / call whose holder the parent deletes or replaces
     return None
 
 
